@@ -161,6 +161,9 @@ mut("rf-new-node-len-first", ARN, """            let index = self.nodes.len();
             let index = self.count();
             self.nodes.push(node);
             (index, stamp)""", [], silent=True)
+mut("rf-append-skip1", IDR, "        if self.ancestors(arena).any(|ancestor| new_child == ancestor) {\n            return Err(NodeError::AppendAncestor);",
+    "        if self.ancestors(arena).skip(1).any(|ancestor| new_child == ancestor) {\n            return Err(NodeError::AppendAncestor);", [], silent=True,
+    note="self is skipped: new_child != self has already been checked")
 mut("rf-is-removed-cmp", IDR, """        self.0.is_negative()""", """        self.0 < 0""", [], silent=True)
 mut("rf-get-node-id-at-match", ARN, """        self.nodes
             .get(index0)
